@@ -32,6 +32,7 @@ RULE = (
     "string, with the default id replacement or f_replace={} (SId-clean ids only); or one shipped "
     "SBML file read and cross-checked by an independent XML reader.  Non-trivial when the model "
     "has >= 1 non-default attribute class; distinct by (model hash, channel, f_replace)."
+    " Written documents are also rewritten as fbc version 1 (validated by libsbml) and cross-checked by the independent reader."  # third-session additions
 )
 ASSUMPTIONS = [
     "floats compared to 15 significant digits as the property states; a second round trip exactly",
